@@ -2,33 +2,34 @@
    Print Assumptions; then the non-vacuity examples and the refutation witnesses (vm_compute).
 
    W is the window size (core.NumBlocksPerFilter in juno), [member] the bloom test, assumed only to
-   say yes for inserted keys.  [guarded] = every UNGRACEFUL restart of the history finds a disk on which
-   the branch InitializeRunningEventFilter takes is fed trustworthy data (disk_ok_b); [cache_fresh] =
-   every cached window equals the currently persisted one. [guarded] does not hold for all histories of
-   the real code: see the witness at the end (stale snapshot). [cache_fresh] is an invariant since
-   /repo commit 5bb6f6f (RevertHead resets the cache): C09_cache_fresh_invariant. Since /repo commit 5440575
-   (onReorg deletes the persisted window it re-enters) the rebuild branch needs nothing from the disk:
-   [guarded] only constrains restarts that use a snapshot, and holds for every history without a
-   graceful restart (C09_guarded_without_graceful_restart). *)
+   say yes for inserted keys.  The headline theorems hold for EVERY history of Store / Revert / Restart
+   (graceful or not) / Forget / Query operations - no hypothesis on the history is left:
+   * [cache_fresh] (every cached window equals the currently persisted one) is an invariant since /repo
+     commit 5bb6f6f (RevertHead resets the cache): C09_cache_fresh_invariant;
+   * since /repo commit 5440575 (onReorg deletes the persisted window it re-enters) the rebuild branch of
+     InitializeRunningEventFilter needs nothing from the disk;
+   * [guarded] (every UNGRACEFUL restart that uses the running-filter snapshot finds a trustworthy one,
+     disk_ok_b) is an invariant since InitializeRunningEventFilter CONSUMES the snapshot it reads (deletes
+     it before using it): C09_guarded_invariant, C09_snapshot_consumed. Before that change it was a
+     hypothesis that the real code did not guarantee (Example restart_snapshot_needed_before_fix). *)
 From Coq Require Import List NArith Bool.
 From V Require Import C09.Model C09.Proofs C09.Proofs_paging C09.Proofs_inv C09.Proofs_cache C09.Proofs_main
   C09.Proofs_border.
 Import ListNotations.
 Open Scope N_scope.
 
-(* No false negative: in every state reached by a guarded history, every block that holds a matching
+(* No false negative: in every state reached by ANY history, every block that holds a matching
    event is a candidate of the bloom index (so the exact matcher sees it) - whatever the cache holds,
-   after reorgs of any depth and restarts. *)
+   after reorgs of any depth and graceful or ungraceful restarts. *)
 Theorem C09_no_false_negative :
   forall (W : N), 0 < W ->
   forall (member : list bkey -> bkey -> bool),
   (forall ks k, In k ks -> member ks k = true) ->            (* bloom_sound *)
   forall ops : list op,
-  guarded W member init_state ops = true ->
   let s := ensure W (run W member init_state ops) in
   forall flt n, n < lenN (chain s) -> block_matches (chain s) flt n <> [] ->
     cand_item W member s flt n = Some true.
-Proof. exact no_false_negative_lemma. Qed.
+Proof. exact no_false_negative_all. Qed.
 Print Assumptions C09_no_false_negative.
 
 (* Paging: following the model's own continuation tokens, the concatenation of the pages is the
@@ -39,13 +40,12 @@ Theorem C09_paging_concat :
   forall (member : list bkey -> bkey -> bool),
   (forall ks k, In k ks -> member ks k = true) ->
   forall ops : list op,
-  guarded W member init_state ops = true ->
   let s := ensure W (run W member init_state ops) in
   chain s <> [] ->
   forall flt from to chunk limit fuel, 0 < chunk ->
   (length (chain s) + length (filter_spec (chain s) flt from to) < fuel)%nat ->
   pages W member fuel s flt from to chunk limit (0, 0) = Some (filter_spec (chain s) flt from to).
-Proof. exact paging_concat_lemma. Qed.
+Proof. exact paging_concat_all. Qed.
 Print Assumptions C09_paging_concat.
 
 (* the same, for any state satisfying the index invariant (not only reachable ones) *)
@@ -71,27 +71,49 @@ Theorem C09_restart_init_ok :
 Proof. exact restart_init_ok_all. Qed.
 Print Assumptions C09_restart_init_ok.
 
-(* the cache never holds a stale window: every cached window equals the persisted one, in every state
-   reached by a guarded history (queries, LRU forgetting, reorgs across window boundaries, restarts) *)
+(* the cache never holds a stale window: every cached window equals the persisted one, in every
+   reachable state (queries, LRU forgetting, reorgs across window boundaries, restarts) *)
 Theorem C09_cache_fresh_invariant :
   forall (W : N), 0 < W ->
   forall (member : list bkey -> bkey -> bool) (ops : list op),
-  guarded W member init_state ops = true -> cache_fresh (ensure W (run W member init_state ops)).
-Proof. exact reachable_cache_fresh. Qed.
+  cache_fresh (ensure W (run W member init_state ops)).
+Proof. exact reachable_cache_fresh_all. Qed.
 Print Assumptions C09_cache_fresh_invariant.
 
-(* the invariant holds in every state reached by a guarded history *)
+(* the index invariant holds in every reachable state *)
 Theorem C09_reachable_invariant :
   forall (W : N), 0 < W ->
   forall (member : list bkey -> bkey -> bool) (ops : list op),
-  guarded W member init_state ops = true -> rinv W (ensure W (run W member init_state ops)).
-Proof. exact reachable_rinv. Qed.
+  rinv W (ensure W (run W member init_state ops)).
+Proof. exact reachable_rinv_all. Qed.
 Print Assumptions C09_reachable_invariant.
 
-(* a history in which no snapshot is ever written (no graceful restart) is guarded: crashes, reorgs of
-   any depth across window boundaries and rebuilds from the persisted windows need no hypothesis *)
+(* [guarded] is an invariant: EVERY history is guarded - whenever an ungraceful restart is about to use
+   the running-filter snapshot (as it is, or filled in place), that snapshot describes the current chain.
+   Reason: InitializeRunningEventFilter deletes the snapshot it reads, so a snapshot on disk was either
+   written on an empty chain (next = 0: it records nothing) or by the graceful shutdown of the previous
+   process, the filter not having been initialised (hence no block stored or reverted) since. *)
+Theorem C09_guarded_invariant :
+  forall (W : N), 0 < W ->
+  forall (member : list bkey -> bkey -> bool) (ops : list op),
+  guarded W member init_state ops = true.
+Proof. exact guarded_always. Qed.
+Print Assumptions C09_guarded_invariant.
+
+(* after the lazy initialisation no snapshot is left on disk, except possibly the one written on an
+   empty chain (InitializeRunningEventFilter returns before reading the snapshot when there is no head) *)
+Theorem C09_snapshot_consumed :
+  forall (W : N), 0 < W ->
+  forall (member : list bkey -> bkey -> bool) (ops : list op),
+  let s := ensure W (run W member init_state ops) in
+  snapshot s = None \/ exists w, snapshot s = Some (w, 0) /\ w_from w = 0.
+Proof. exact reachable_snapshot_consumed. Qed.
+Print Assumptions C09_snapshot_consumed.
+
+(* (kept from the time when only snapshot-free histories were known to be guarded) *)
 Theorem C09_guarded_without_graceful_restart :
-  forall (W : N) (member : list bkey -> bkey -> bool) (ops : list op),
+  forall (W : N), 0 < W ->
+  forall (member : list bkey -> bkey -> bool) (ops : list op),
   (forall o, In o ops -> o <> Restart true) -> guarded W member init_state ops = true.
 Proof. exact guarded_without_graceful. Qed.
 Print Assumptions C09_guarded_without_graceful_restart.
@@ -100,7 +122,6 @@ Print Assumptions C09_guarded_without_graceful_restart.
 Theorem C09_no_stale_persisted :
   forall (W : N), 0 < W ->
   forall (member : list bkey -> bkey -> bool) (ops : list op),
-  guarded W member init_state ops = true ->
   let s := ensure W (run W member init_state ops) in
   forall k pw, lookup k (persisted s) = Some pw -> k mod W = 0 /\ k + W <= lenN (chain s).
 Proof. exact reachable_keys. Qed.
@@ -147,15 +168,14 @@ Theorem C09_no_false_negative_with_preconfirmed :
   forall (member : list bkey -> bkey -> bool),
   (forall ks k, In k ks -> member ks k = true) ->
   forall ops : list op,
-  guarded W member init_state ops = true ->
   let s := ensure W (run W member init_state ops) in
   forall pre flt n, n < lenN (chain s) + lenN pre ->
     block_matches (chain s ++ pre) flt n <> [] ->
     cand_ext W member s flt pre n = Some true.
-Proof. exact no_false_negative_pre_lemma. Qed.
+Proof. exact no_false_negative_pre_all. Qed.
 Print Assumptions C09_no_false_negative_with_preconfirmed.
 
-(* Paging across the canonical / pre-confirmed border: for every stored chain (guarded history), every
+(* Paging across the canonical / pre-confirmed border: for every stored chain (any history), every
    pre-confirmed tail, every filter, range, chunk size > 0 and scan limit, the concatenation of the pages
    obtained by following the continuation tokens - canonical tokens (n, p) with n <= head, then, from the
    page in which the canonical part ends, tokens (n, p) with n > head - is the unpaged list. The fuel
@@ -165,7 +185,6 @@ Theorem C09_paging_concat_preconfirmed :
   forall (member : list bkey -> bkey -> bool),
   (forall ks k, In k ks -> member ks k = true) ->
   forall ops : list op,
-  guarded W member init_state ops = true ->
   let s := ensure W (run W member init_state ops) in
   chain s <> [] ->
   forall pre flt from to chunk limit fuel, 0 < chunk ->
@@ -173,7 +192,7 @@ Theorem C09_paging_concat_preconfirmed :
   (N.to_nat (page_bound (range_blocks (chain s) pre from to)
                         (lenN (filter_spec_pre (chain s) flt from to pre))) <= fuel)%nat ->
   pages_pre W member fuel s flt from to chunk limit pre = Some (filter_spec_pre (chain s) flt from to pre).
-Proof. exact paging_concat_preconfirmed_lemma. Qed.
+Proof. exact paging_concat_preconfirmed_all. Qed.
 Print Assumptions C09_paging_concat_preconfirmed.
 
 (* the same for any state satisfying the index invariant, together with the facts about the page sequence *)
@@ -194,7 +213,7 @@ Theorem C09_paging_concat_preconfirmed_state :
 Proof. exact page_seq_state. Qed.
 Print Assumptions C09_paging_concat_preconfirmed_state.
 
-(* Progress measure: following the tokens terminates after at most max(1, blocks in range + matches)
+(* Progress measure (any history): following the tokens terminates after at most max(1, blocks in range + matches)
    pages (page_count_ok), every page holds at most chunk events, an empty page carries a token only
    with a scan limit set and the token at the start of a block, and every token lies strictly after the
    position its page started from (pages_ok) - so "concatenating the pages" is total for every chunk
@@ -205,7 +224,6 @@ Theorem C09_paging_terminates :
   forall (member : list bkey -> bkey -> bool),
   (forall ks k, In k ks -> member ks k = true) ->
   forall ops : list op,
-  guarded W member init_state ops = true ->
   let s := ensure W (run W member init_state ops) in
   chain s <> [] ->
   forall pre flt from to chunk limit fuel, 0 < chunk ->
@@ -217,7 +235,7 @@ Theorem C09_paging_terminates :
     page_count_ok (range_blocks (chain s) pre from to)
                   (lenN (filter_spec_pre (chain s) flt from to pre)) (lenN ps) = true /\
     pages_ok chunk limit (pre_start (chain s) pre from, 0) (page_sizes ps) = true.
-Proof. exact paging_progress_lemma. Qed.
+Proof. exact paging_progress_all. Qed.
 Print Assumptions C09_paging_terminates.
 
 (* a page never holds more than chunk events - for ANY state, ANY token (also tokens the model never
@@ -313,22 +331,40 @@ Example stale_cache_fixed :
   pages 2 member_exact 20 s fB 0 10 5 0 (0, 0) = Some [Build_fev 1 0 0 evB].
 Proof. vm_compute. repeat split; reflexivity. Qed.
 
-(* 2. [guarded] is needed, snapshot branch: the snapshot written at a graceful shutdown is never
-   invalidated; after a reorg of the head block and a crash it is taken as it is (next = head+1). *)
+(* 2. regression witness for the consumed snapshot (W = 4): the snapshot written at a graceful shutdown used to
+   stay on disk for ever; after a reorg of the head block and a crash it was taken as it is (next = head+1)
+   and block 1 (event from B) was no candidate. Now the first initialisation after the graceful restart
+   deletes it, the crash finds none and rebuilds: the history is guarded, the block is a candidate, the
+   pages are exact. *)
 Definition h_stale_snapshot : list op :=
   [Store []; Store [[evA]]; Restart true; Revert; Store [[evB]]; Restart false].
 
-Theorem C09_restart_snapshot_needed :
-  exists ops flt n,
-    guarded 4 member_exact init_state ops = false /\
-    let s := ensure 4 (run 4 member_exact init_state ops) in
-    cache_fresh_b s = true /\
-    n < lenN (chain s) /\ block_matches (chain s) flt n <> [] /\
-    cand_item 4 member_exact s flt n = Some false.
-Proof.
-  exists h_stale_snapshot, fB, 1. vm_compute. repeat split; try reflexivity. discriminate.
-Qed.
-Print Assumptions C09_restart_snapshot_needed.
+Example stale_snapshot_fixed :
+  guarded 4 member_exact init_state h_stale_snapshot = true /\
+  let s := ensure 4 (run 4 member_exact init_state h_stale_snapshot) in
+  snapshot s = None /\ cache_fresh_b s = true /\
+  cand_item 4 member_exact s fB 1 = Some true /\
+  pages 4 member_exact 20 s fB 0 10 1 1 (0, 0) = Some [Build_fev 1 0 0 evB].
+Proof. vm_compute. repeat split; reflexivity. Qed.
+
+(* ... and the behaviour of the code BEFORE that change, reconstructed by putting the snapshot back on disk
+   (state s_unconsumed is NOT reachable any more): disk_ok_b fails, the ungraceful restart takes the stale
+   snapshot as it is and the block holding the event from B is no candidate. So the hypothesis disk_ok_b of
+   C09_restart_init_ok is not decorative, and [guarded] was a genuine hypothesis before the snapshot was
+   consumed (this is the former theorem C09_restart_snapshot_needed). *)
+Definition s_unconsumed : state :=
+  let written := snapshot (run 4 member_exact init_state [Store []; Store [[evA]]; Restart true]) in
+  let s := ensure 4 (run 4 member_exact init_state [Store []; Store [[evA]]; Restart true; Revert; Store [[evB]]]) in
+  Build_state (chain s) (persisted s) written (running s) (cache s).
+
+Example restart_snapshot_needed_before_fix :
+  snapshot s_unconsumed <> None /\
+  disk_ok_b 4 s_unconsumed = false /\ disk_bad_kind 4 s_unconsumed = 1 /\
+  let s := ensure 4 (do_restart 4 s_unconsumed false) in
+  cache_fresh_b s = true /\
+  1 < lenN (chain s) /\ block_matches (chain s) fB 1 <> [] /\
+  cand_item 4 member_exact s fB 1 = Some false.
+Proof. vm_compute. repeat split; try reflexivity; discriminate. Qed.
 
 (* 3. regression witness for /repo commit 5440575 (W = 3): revert across the window boundary, a new
    block below it, crash without snapshot. Before the fix the rebuild found the stale persisted window
